@@ -14,6 +14,8 @@ def main():
     out = {'found': False}
     try:
         m = importlib.import_module('replay.' + req['property'].lower())
+        if hasattr(m, 'KNOWN_KEYS'):
+            m.KNOWN_KEYS = set(req.get('known_keys') or [])
         out = m.search(req['func'], req.get('candidate'), int(req.get('seed') or 0),
                        req.get('tier') or 'quick', req.get('obligation') or '') or {'found': False}
     except Exception:
